@@ -13,6 +13,7 @@ EXPLANATION = (
     "(R3) routing: range() hands (start, [increment,] terminal) to the exclusive / inclusive (increment) compilers according to the operator token. "
     "Not decided: floating-point rounding of long progressions, descending ranges, ranges used as indices."
     " (R4) operand forwarding: in every arm of every range compiler (the direct attempt and each fallback arm that dereferences variable operands) the i-th argument of the dispatcher call derives from the i-th operand and no other (start, [step,] end)."
+    " (R5) scope forwarding: the evaluator of a range node hands the local environment it receives to the evaluation of every operand (start, step, end): no sub-evaluator call passes the literal None in its environment position, so an operand bound by a pattern, a generator or a qualifier is not resolved against the globals."
 )
 TECHNIQUE = ("finite-table evaluation (a concrete mini-interpreter over the syntax tree of the expanded crate, fixed-width integer overflow modelled) of the closed length arithmetic in each "
              "dispatcher arm and of the four fill kernels, compared with the progression the property states; routing table extracted from range(); operand-position flow analysis of every range compiler's "
@@ -65,6 +66,11 @@ def run(F, rep, tier):
     _run(F, rep, tier)
     from rules.c15_forward import run_r4
     run_r4(F, rep)
+    # R5: the operands of a range are evaluated in the caller's environment (scope forwarding; the evaluators of range nodes are found by parameter type)
+    from rules import scope_forward
+    nc, ns = scope_forward.run(F, rep, "C15-R5", judged=lambda it: any("Range" in str(t) for _, t in it["sig"]["inputs"]), what="range evaluators")
+    rep.floor("C15-R5", "range evaluators that receive the local environment", nc, 1)
+    rep.floor("C15-R5", "sub-evaluator calls of the range evaluators with an environment position", ns, 2)
 
 
 def _run(F, rep, tier):
